@@ -2,6 +2,7 @@ import BM.Driver.Codec
 import BM.Spec.Oracles
 import BM.Spec.More
 import BM.CssDefault
+import BM.Entry
 import Std.Data.HashMap
 namespace BM.Driver
 open BM BM.Html BM.Spec
@@ -237,8 +238,8 @@ def handleLine (st : State) (line : String) : State × String :=
     match getPolicy st pid, unhexField inp, unhexField oS, unhexField oB, unhexField oR, unhexField oW, unhexField oW2 with
     | some p, some b, some oS, some oB, some oR, some oW, some oW2 =>
       let blank := (Css.trimSpace b).isEmpty
-      let mS := p.sanitize b
-      let mR := p.sanitizeCore b
+      let mS := p.sanitizeEntry b
+      let mR := p.sanitizeReaderM b .eof
       let corr := mS == oS && mS == oB && mR == oR && mR == oW && mR == oW2
       let agree := if blank then oS == b && oB == b && oR == oW && oW == oW2
                    else oS == oB && oB == oR && oR == oW && oW == oW2
@@ -259,9 +260,12 @@ def handleLine (st : State) (line : String) : State × String :=
   | ["rfault", pid, inp, off, _wd, errf, written, rlen] =>
     match getPolicy st pid, unhexField inp, off.toNat?, boolField errf, unhexField written, rlen.toNat? with
     | some p, some b, some off, some err, some written, some rlen =>
-      -- the tokenizer treats the bytes delivered before the failure as the whole input
-      let m := p.sanitizeCore (b.take off)
-      (st, verdict (m == written) (hexField m) (if err && rlen == 0 then [] else ["C16"]) [])
+      -- the tokenizer treats the bytes delivered before the failure as the whole input; the model of the
+      -- entry points (BM/Entry.lean) says: an error, and an empty buffer from SanitizeReader
+      let r := p.sanitizeRW (b.take off) .failed none false
+      let m := r.1.flatten
+      let mlen := (p.sanitizeReaderM (b.take off) .failed).length
+      (st, verdict (m == written && r.2 == err && mlen == rlen) (hexField m) (if err && rlen == 0 then [] else ["C16"]) [])
     | _, _, _, _, _, _ => (st, "bad-rfault")
   | ["conc", pid, inp, seq, eq] =>
     match getPolicy st pid, unhexField inp, unhexField seq with
